@@ -1,9 +1,14 @@
 #!/bin/bash
-# Offline setup: verifies the vendored reference, checks the interpreter, warms the Numba cache.
+# Offline setup: verifies the vendored reference, checks the interpreter, warms the Numba caches.
 set -e
 cd "$(dirname "$0")"
 PY="${VERIF_PYTHON:-/venv/bin/python}"
 mkdir -p .cache evidence
 echo "0147b8635e55a77cb9d8bfa02396d20e5c9f63989a6a75b3ba9bec1002b964c7  vendor/modern_robotics_ref/core.py" | sha256sum -c -
+"$PY" -c "from vmon.oracle import se3, segbox; assert se3.selfcheck(200) < 1e-12 and segbox.selfcheck(300) == 0; print('oracle self-checks ok')"
 "$PY" -m vmon.warm
+# compile every kernel once in the three execution environments C17 uses (bounds-checked / JIT / interpreted); the default
+# JIT cache is shared by all other checks.  Its verdict is irrelevant here.
+"$PY" -m vmon.runner C17 --tier quick --no-evidence > .cache/setup_c17.log 2>&1 || true
+tail -1 .cache/setup_c17.log
 echo "setup ok"
